@@ -103,6 +103,7 @@ def run(ctx):
     ctx.cov["portion_shares_oracle"] = dict(shst)
     ctx.cov["replay_isolation"] = dict(rp.stats)
     ctx.cov["exactness_oracle"] = dict(exact)
+    ctx.cov["focused_shapes"] = focus_stats(inputs, impl)
     ctx.cov["evaluations"] = len(inputs)
     ctx.cov["distinct_nontrivial"] = nontrivial
     ctx.cov["rule"] = "same generator as C01; non-trivial = distinct accepted case whose send has several sources or destinations or a cap"
